@@ -3,6 +3,7 @@
 From NW Require Import Base.Bytes Model.SchemaTypes Gen.Schema Model.Codec Model.MsgInfo Model.Ids Model.Server.
 From NW Require Import Proofs.ServerLib Proofs.ServerRoute Proofs.ServerHandlers Proofs.ServerSteps Proofs.ServerPhases.
 From NW Require Import Proofs.ServerInvBase Proofs.ServerInv Proofs.ServerUniq Proofs.ServerInvCor.
+From NW Require Import Gen.Errors Model.Pool Model.Framing Model.Link Proofs.LinkProofs.
 
 Theorem C08_gate_fail_closed :
   forall (cfg : scfg) (h : N) (me : nid) (m : msg) (payload : list N) (c : ctx),
@@ -74,3 +75,48 @@ Theorem C08_whole_frame :
      head_outcome (script c) = MInvalid \/ head_outcome (script c) = MErr ->
      forall (h' : N) (m' : msg) (q : list N), ~ In (OSend h' m' (Some q)) (new_outs c c')).
 Proof. exact C08_on_frame. Qed.
+
+Theorem C08_client_accepts_only_valid :
+  forall (d : bool) (r : creply),
+    c_fbp d r = RValid \/ (exists a : list N, c_fbp d r = RAltered a) ->
+    d = true /\
+    (exists (m : msg) (p : option (list N)),
+       r = CrMsg m p /\
+       is_kind m "S2M_FORWARD_BROADCAST_PAYLOAD_ACK" = true /\
+       get_bool m "valid" = true /\
+       (forall a : list N, c_fbp d r = RAltered a -> p = Some a) /\
+       (c_fbp d r = RValid -> p = None)).
+Proof. exact c_fbp_accept_only_valid. Qed.
+
+Theorem C08_link_transparent :
+  forall (cfg : lcfg) (hb id : N) (f ch : str) (p : list N) (o : moutcome) (n : nid),
+    lop_fbp cfg = true ->
+    l_max_inflight cfg <> 0 ->
+    nid_parse f = Some n ->
+    fbp_ack_fits cfg id o = true ->
+    snd (via_link cfg hb id (McFbp f ch p) o) = fbp_expected o /\
+    In (LMod (McFbp f ch p)) (fst (via_link cfg hb id (McFbp f ch p) o)).
+Proof. exact via_link_fbp_transparent'. Qed.
+
+Theorem C08_link_fail_closed :
+  forall (cfg : lcfg) (hb id : N) (o : moutcome),
+    (forall t u : str,
+     outcome_of (snd (via_link cfg hb id (McAuth t) o)) = MAuthSuccess u -> o = MAuthSuccess u) /\
+    (forall (f ch : str) (p : list N),
+     outcome_of (snd (via_link cfg hb id (McFbp f ch p) o)) = MOk ->
+     o <> MErr /\ o <> MInvalid /\ (forall a : list N, o <> MAltered a)) /\
+    (forall (f ch : str) (p a : list N),
+     outcome_of (snd (via_link cfg hb id (McFbp f ch p) o)) = MAltered a -> o = MAltered a).
+Proof. exact via_link_fail_closed. Qed.
+
+Theorem C08_reply_is_correlated :
+  forall (id : N) (os : list lout) (m : msg) (p : option (list N)),
+    reply_for id os = CrMsg m p ->
+    correlation_id schema m = Some id /\ (In (LSend m p) os \/ p = None /\ In (LClose m) os).
+Proof. exact reply_for_correlated. Qed.
+
+Theorem C08_outcome_accept_only :
+  forall r : cresult,
+    (outcome_of r = MOk -> r = RValid \/ r = REventOk) /\
+    (forall a : list N, outcome_of r = MAltered a -> r = RAltered a).
+Proof. exact outcome_of_accept_only. Qed.
